@@ -96,6 +96,10 @@ pub fn recv(&mut self, stop_timer: &mut Option<Timer>, env: &mut Env) -> (r: Opt
             r is Some && r->Some_0 == old(env).urgent@[0], // OBL:C10.recv.urgent_first
         !timer_expired(*old(stop_timer), old(env).now@) && old(env).urgent@.len() == 0 && old(env).high@.len() > 0 && (*final(stop_timer)) == (*old(stop_timer)) ==>
             r is Some && (r->Some_0 == old(env).high@[0] || popped_from(old(env).urgent@, final(env).urgent@, r->Some_0)), // OBL:C10.recv.high_before_normal
+        // ---- ordering (C10), over the queue contents at the moment a message is taken (messages that arrived while the task was waiting included) ----
+        (*final(stop_timer)) == (*old(stop_timer)) && r is Some ==> 0 <= final(env).picked@ <= 2,
+        (*final(stop_timer)) == (*old(stop_timer)) && r is Some && final(env).picked@ == 2 ==> final(env).urgent@.len() == 0 && final(env).high@.len() == 0, // OBL:C10.recv.a_normal_control_is_taken_only_when_nothing_more_urgent_is_pending
+        (*final(stop_timer)) == (*old(stop_timer)) && r is Some && final(env).picked@ == 1 ==> final(env).urgent@.len() == 0, // OBL:C10.recv.a_high_control_is_taken_only_when_no_urgent_one_is_pending
         // whatever is returned from a queue is that queue's head and exactly that one message is removed; nothing else is reordered
         (*final(stop_timer)) == (*old(stop_timer)) && r is Some ==> popped_head(old(env), final(env), r->Some_0), // OBL:C10.recv.pops_exactly_the_head
 //@ prologue
